@@ -36,15 +36,16 @@ example : applyAll (applyAll [] [.put "a"]) [] = ["a"] ∧ applyAll [] [.put "a"
 /-- **Convergence.** If every subscriber is either receiving or cancelled, the next turn of the
 loop (a change or the next tick, i.e. at most one push interval later) completes, and every live
 subscriber has received exactly the current set as its latest status. -/
-theorem converges_if_readers_ready (st : St) (ev : Ev) (hb : st.blocked = false)
-    (h : ∀ s ∈ st.subs, s.reading = true ∨ s.cancelled = true) :
+theorem converges_if_readers_ready (st : St) (ev : Ev) (hb : st.blocked = false) (he : st.exited = false)
+    (hev : ev ≠ .closed) (h : ∀ s ∈ st.subs, s.reading = true ∨ s.cancelled = true) :
     (turn st ev).blocked = false ∧
     (∀ a, ev = .update a → (turn st ev).latest = a) ∧
     (ev = .tick → (turn st ev).latest = st.latest) ∧
     ∀ s' ∈ (turn st ev).subs, s'.live = true → s'.inbox.getLast? = some (turn st ev).latest := by
   unfold turn
-  simp only [hb, Bool.false_eq_true, if_false]
+  simp only [hb, he, Bool.or_self, Bool.false_eq_true, if_false]
   cases ev with
+  | closed => exact absurd rfl hev
   | update a =>
     obtain ⟨h1, _, h3⟩ := dispatch_ready a st.subs h
     refine ⟨h1, ?_, ?_, h3⟩
@@ -67,12 +68,12 @@ theorem converges_if_readers_ready (st : St) (ev : Ev) (hb : st.blocked = false)
 
 /-- **Unsubscribe completes** whenever the loop is at its `select` (not stuck in dispatch): the
 entry is removed and its channel closed in that very turn, whatever the other subscribers do. -/
-theorem unsubscribe_completes_partial (st : St) (id : Nat) (hb : st.blocked = false)
+theorem unsubscribe_completes_partial (st : St) (id : Nat) (hb : st.blocked = false) (he : st.exited = false)
     (hin : ∃ s ∈ st.subs, s.id = id) :
     id ∈ (turn st (.unsub id)).closedIds ∧ ∀ s' ∈ (turn st (.unsub id)).subs, s'.id ≠ id := by
   obtain ⟨s, hs, hid⟩ := hin
   unfold turn
-  simp only [hb, Bool.false_eq_true, if_false]
+  simp only [hb, he, Bool.or_self, Bool.false_eq_true, if_false]
   have hgone : (st.subs.partition (·.id = id)).1.isEmpty = false := by
     rw [List.partition_eq_filter_filter]
     have : s ∈ st.subs.filter (fun x => decide (x.id = id)) := List.mem_filter.mpr ⟨hs, by simp [hid]⟩
@@ -111,22 +112,23 @@ theorem unsubscribe_completes_partial (st : St) (id : Nat) (hb : st.blocked = fa
     simp [e, h'] at this
 
 /-- a stuck loop never does anything again: no delivery, no Unsubscribe returns -/
-theorem blocked_forever (st : St) (evs : List Ev) (hb : st.blocked = true) : run st evs = st := by
+theorem blocked_forever (st : St) (evs : List Ev) (hb : st.blocked = true ∨ st.exited = true) : run st evs = st := by
   induction evs with
   | nil => rfl
   | cons ev rest ih =>
-    have : turn st ev = st := by unfold turn; simp [hb]
+    have : turn st ev = st := by unfold turn; rcases hb with hb | hb <;> simp [hb]
     simp only [run, List.foldl_cons, this]
     exact ih
 
 /-- **Head-of-line blocking.** A single subscriber that neither receives nor cancels blocks the
 loop at the next change or tick … -/
-theorem slow_reader_blocks (st : St) (ev : Ev) (hb : st.blocked = false)
-    (hs : ∃ s ∈ st.subs, s.stuck = true) (hev : ∀ id, ev ≠ .unsub id) :
+theorem slow_reader_blocks (st : St) (ev : Ev) (hb : st.blocked = false) (he : st.exited = false)
+    (hs : ∃ s ∈ st.subs, s.stuck = true) (hev : ∀ id, ev ≠ .unsub id) (hev' : ev ≠ .closed) :
     (turn st ev).blocked = true := by
   unfold turn
-  simp only [hb, Bool.false_eq_true, if_false]
+  simp only [hb, he, Bool.or_self, Bool.false_eq_true, if_false]
   cases ev with
+  | closed => exact absurd rfl hev'
   | update a => exact dispatch_stuck a st.subs hs
   | tick => exact dispatch_stuck st.latest st.subs hs
   | unsub id => exact absurd rfl (hev id)
@@ -134,7 +136,7 @@ theorem slow_reader_blocks (st : St) (ev : Ev) (hb : st.blocked = false)
 /-- full statement: whatever the subscribers do and whatever happened before, an Unsubscribe of an
 existing subscription eventually returns (here: is processed by the loop) -/
 def PropUnsubscribe : Prop :=
-  ∀ (st : St) (evs : List Ev) (id : Nat), st.blocked = false → (∃ s ∈ st.subs, s.id = id) →
+  ∀ (st : St) (evs : List Ev) (id : Nat), st.blocked = false → st.exited = false → (∃ s ∈ st.subs, s.id = id) →
     id ∈ (run st (evs ++ [.unsub id])).closedIds
 
 /-- witness: subscriber 1 never reads, subscriber 2 reads; after one tick the loop is stuck on 1
@@ -142,9 +144,76 @@ and Unsubscribe(2) never returns (and 2 receives nothing any more) -/
 theorem unsubscribe_counterexample : ¬ PropUnsubscribe := by
   intro h
   have := h { latest := ["10.0.0.1:5001"], closedIds := [], blocked := false,
-              subs := [⟨1, false, false, []⟩, ⟨2, true, false, []⟩] } [.tick] 2 rfl ⟨⟨2, true, false, []⟩, by simp, rfl⟩
+              subs := [⟨1, false, false, []⟩, ⟨2, true, false, []⟩] } [.tick] 2 rfl rfl ⟨⟨2, true, false, []⟩, by simp, rfl⟩
   revert this
   decide
+
+
+/-! ### end to end: registrations → stream → loop → subscribers -/
+
+/-- what the stream sends to helium: the snapshot of the Get, then one snapshot per changing event -/
+def streamOutput (got : List Addr) (evs : List WEv) : List (List Addr) := got :: emitted got evs
+
+/-- the stream's last message is its current endpoint set (so helium's `latest` is never staler
+than the stream itself) -/
+theorem stream_last_is_current (got : List Addr) (evs : List WEv) :
+    (streamOutput got evs).getLast? = some (applyAll got evs) := emitted_last got evs
+
+/-- **End-to-end convergence over a whole run.**  Registrations change (`A` before the watch, `B`
+between watch and Get, `C` afterwards); the stream sends `streamOutput`; the loop processes these
+messages as `update` events in order, interleaved in any way with ticks and Unsubscribe calls
+(`evs`, at least the first message has arrived).  If every subscriber is receiving or cancelled,
+then after the turn of the last event the loop is healthy and **every live subscriber's latest
+status has exactly the members of the registered set** — i.e. at most one turn (one push interval)
+after the last change. -/
+theorem converges_end_to_end (R0 : List Addr) (A B C : List WEv) (st : St) (evs : List Ev) (ev : Ev)
+    (hb : st.blocked = false) (he : st.exited = false) (h : AllReady st)
+    (hnc : ∀ e ∈ evs ++ [ev], e ≠ .closed)
+    (hstream : (evs ++ [ev]).filterMap updateOf = streamOutput (applyAll R0 (A ++ B)) (B ++ C)) :
+    (run st (evs ++ [ev])).blocked = false ∧
+    ∀ s' ∈ (run st (evs ++ [ev])).subs, s'.live = true →
+      ∃ l, s'.inbox.getLast? = some l ∧ ∀ k, k ∈ l ↔ k ∈ applyAll R0 (A ++ B ++ C) := by
+  obtain ⟨h1, h2, h3, h4⟩ := run_healthy st evs hb he (fun e he' => hnc e (by simp [he'])) h
+  have hrun : run st (evs ++ [ev]) = turn (run st evs) ev := by simp [run, List.foldl_append]
+  have hev : ev ≠ .closed := hnc ev (by simp)
+  obtain ⟨c1, _, _, c4⟩ := converges_if_readers_ready (run st evs) ev h1 h2 hev h3
+  obtain ⟨_, _, _, t4⟩ := turn_healthy (run st evs) ev h1 h2 hev h3
+  rw [hrun]
+  refine ⟨c1, ?_⟩
+  intro s' hs' hl
+  refine ⟨_, c4 s' hs' hl, ?_⟩
+  -- the loop's latest status is the stream's last message …
+  have hlatest : (turn (run st evs) ev).latest = applyAll (applyAll R0 (A ++ B)) (B ++ C) := by
+    rw [t4, h4, ← lastUpdate_append, lastUpdate_filterMap, hstream, stream_last_is_current]
+    rfl
+  -- … whose members are the registered set
+  intro k
+  rw [hlatest]
+  exact endpoint_set_tracks R0 A B C k
+
+/-- **Initial condition.** Until the stream's first message arrives the loop's status is the zero
+value: a tick that comes first makes every live subscriber receive the *empty* address list. -/
+example : (turn (subscribe St.init ⟨1, true, false, []⟩ 0) .tick).subs.map (·.inbox) = [[[]]] := by decide
+
+/-! ### the stream ends: the loop is gone for good -/
+
+/-- **Watch failure kills discovery (finding D20b).**  When the store stream closes its channel
+(`watch failed`, a compacted revision, the context of `helium.New`), the loop goroutine returns and
+`sync.Once` never starts it again: from then on no subscriber receives anything — not even the
+periodic re-push — and no `Unsubscribe` returns, whatever the subscribers do. -/
+theorem stream_closed_is_final (st : St) (evs : List Ev) (hb : st.blocked = false) (he : st.exited = false) :
+    run st (.closed :: evs) = { st with exited := true } := by
+  have h1 : turn st .closed = { st with exited := true } := by unfold turn; simp [hb, he]
+  simp only [run, List.foldl_cons, h1]
+  exact blocked_forever _ evs (Or.inr rfl)
+
+/-- in particular the full Unsubscribe statement fails after a closed stream even when every
+subscriber is a perfect reader -/
+theorem unsubscribe_after_close_counterexample :
+    ∃ (st : St) (id : Nat), st.blocked = false ∧ st.exited = false ∧ AllReady st ∧ (∃ s ∈ st.subs, s.id = id) ∧
+      id ∉ (run st [.closed, .tick, .unsub id]).closedIds :=
+  ⟨{ latest := ["10.0.0.1:5001"], closedIds := [], blocked := false, subs := [⟨1, true, false, []⟩] }, 1,
+    rfl, rfl, by intro s hs; simp at hs; subst hs; exact Or.inl rfl, ⟨⟨1, true, false, []⟩, by simp, rfl⟩, by decide⟩
 
 /-- the convergence hypotheses are satisfiable by a non-trivial state -/
 example : let st : St := { latest := ["a"], closedIds := [], blocked := false,
